@@ -248,6 +248,25 @@ class AstChecker:
                     self.inside(elem_loc, c, "attr-value-outside-element")
             self.value(c, scopes)
 
+    def tagloc(self, n):
+        """the punctuation of a tag pair: `<` and `>` of the start tag, the `/` that closes the element (of `/>` or of the
+        end tag's `</`), `<` and `>` of the end tag - each location spans exactly that one character, in source order"""
+        tl = n.get("tl")
+        if not tl or not self.strict:
+            return
+        parts = [("s0", tl["s0"], "<"), ("s1", tl["s1"], ">"), ("close", tl["close"], "/")]
+        if tl.get("e"):
+            parts += [("e0", tl["e"][0], "<"), ("e1", tl["e"][1], ">")]
+        for name, loc, ch in parts:
+            self.leaves += 1
+            sl = self.li.slice(loc)
+            if sl != ch:
+                self.bad("tag-punctuation", n, "%s at %s spans %r, not %r" % (name, loc, sl, ch))
+        order = [tl["s0"], tl["close"], tl["s1"]] if not tl.get("e") else [tl["s0"], tl["s1"], tl["e"][0], tl["close"], tl["e"][1]]
+        for a, b in zip(order, order[1:]):
+            if not loc_le(a[2:4], b[0:2]):
+                self.bad("tag-punctuation-order", n, "%s then %s" % (a, b))
+
     def nodes(self, lst, scopes, parent_loc):
         self.ordered(lst, "node-sibling-order")
         for n in lst:
@@ -257,6 +276,7 @@ class AstChecker:
 
     def node(self, n, scopes):
         k = n["k"]
+        self.tagloc(n)
         if k == "text":
             self.slice(n)
             for c in n["ch"]:
@@ -306,6 +326,8 @@ class AstChecker:
 def check_ast(src, ast, warn_level):
     c = AstChecker(src, warn_level)
     scopes = [s["name"]["t"] for s in ast.get("scripts", [])]
+    for x in ast.get("scripts", []) + ast.get("imports", []) + ast.get("includes", []) + ast.get("subs", []):
+        c.tagloc(x)
     for s in ast.get("scripts", []):
         c.value(s["name"], scopes)
         for ch in s.get("ch", []):
